@@ -54,12 +54,36 @@ func (c *Ctx) funcsInPkg(pkgRel ...string) []*ssa.Function {
 		want[p] = true
 	}
 	var out []*ssa.Function
-	for _, f := range c.P.Funcs {
+	for _, f := range c.reprFuncs() {
 		if want[engine.RelPkg(c.P.OwnPkgPath(f))] {
 			out = append(out, f)
 		}
 	}
 	return out
+}
+
+// reprFuncs: all own functions, with instantiations reduced to their generic origin (or
+// one representative instance when the origin itself is not in the function set).
+func (c *Ctx) reprFuncs() []*ssa.Function {
+	if c.allRepr != nil {
+		return c.allRepr
+	}
+	present := map[*ssa.Function]bool{}
+	for _, f := range c.P.Funcs {
+		present[f] = true
+	}
+	repr := map[*ssa.Function]bool{}
+	for _, f := range c.P.Funcs {
+		if isInstance(f) {
+			o := originOf(f)
+			if o == nil || present[o] || repr[o] {
+				continue
+			}
+			repr[o] = true
+		}
+		c.allRepr = append(c.allRepr, f)
+	}
+	return c.allRepr
 }
 
 // nonTest filters helper packages that are not part of the server (benchmarks, tests,
@@ -74,16 +98,34 @@ func isProductPkg(rel string) bool {
 }
 
 func (c *Ctx) productFuncs() []*ssa.Function {
-	var out []*ssa.Function
-	for _, f := range c.P.Funcs {
-		if isInstance(f) {
-			continue // bodies of instantiations duplicate their generic origin
-		}
+	if c.prodFuncs != nil {
+		return c.prodFuncs
+	}
+	for _, f := range c.reprFuncs() {
 		if isProductPkg(engine.RelPkg(c.P.OwnPkgPath(f))) {
-			out = append(out, f)
+			c.prodFuncs = append(c.prodFuncs, f)
 		}
 	}
-	return out
+	return c.prodFuncs
+}
+
+// originOf returns the generic origin of an instance (for closures: of the enclosing instance).
+func originOf(f *ssa.Function) *ssa.Function {
+	if f.Origin() != nil {
+		return f.Origin()
+	}
+	if f.Parent() != nil {
+		po := originOf(f.Parent())
+		if po == nil {
+			return nil
+		}
+		for i, a := range f.Parent().AnonFuncs {
+			if a == f && i < len(po.AnonFuncs) {
+				return po.AnonFuncs[i]
+			}
+		}
+	}
+	return nil
 }
 
 func isInstance(f *ssa.Function) bool {
